@@ -154,4 +154,101 @@ def expectedMapRanges : List (String × String) :=
 
 theorem mapRanges_ok : Gen.mapRanges.all (expectedMapRanges.contains ·) = true := by decide
 
+
+/-! ### F12 / F13: where state can live -/
+
+/-- F12: the package-level variables of the module.  Rendering state can only live in one of them,
+    in a struct field (F13) or in a closure: a variable that appears here (a cache, a pool, a
+    counter) is new state that the model does not have. -/
+def expectedPackageVars : List (String × String) := [
+  ("evaluator.BREAK", "= &object.Break{}"),
+  ("evaluator.CONTINUE", "= &object.Continue{}"),
+  ("evaluator.FALSE", "= &object.Bool{Value: false}"),
+  ("evaluator.NIL", "= &object.Nil{}"),
+  ("evaluator.TRUE", "= &object.Bool{Value: true}"),
+  ("evaluator.functions", "= map[object.ObjectType]map[string]*object.Builtin{ object.S"),
+  ("lexer.simpleTokens", "= map[byte]token.TokenType{ '*': token.MUL, '?': token.QUEST"),
+  ("lexer.tokensWithOptionalParens", "= map[token.TokenType]bool{ token.SLOT: true, }"),
+  ("lexer.tokensWithoutParens", "= map[token.TokenType]bool{ token.ELSE: true, token.END: tru"),
+  ("object.outputHTML", "= `<style> .textwire-dump { overflow-x: auto; overflow-y: hi"),
+  ("parser.precedences", "= map[token.TokenType]int{ token.QUESTION: TERNARY, token.EQ"),
+  ("textwire.customFunc", "= config.NewFunc()"),
+  ("textwire.defaultErrorPage", "string"),
+  ("textwire.userConfig", "= config.New(\"templates\", \".tw.html\", \"\", false)"),
+  ("textwire.usesTemplates", "atomic.Bool"),
+  ("token.directives", "= map[string]TokenType{ \"@if\": IF, \"@else\": ELSE, \"@elseif\":"),
+  ("token.keywords", "= map[string]TokenType{ \"true\": TRUE, \"false\": FALSE, \"nil\":"),
+  ("token.tokens", "= [...]string{ ILLEGAL: \"ILLEGAL\", EOF: \"EOF\", IDENT: \"IDENT")]
+
+theorem packageVars_ok : Gen.packageVars = expectedPackageVars := by decide
+
+/-- F13: the fields of every struct type of the module (the lexer, the parser, the evaluator, the
+    template, the environment, every tree node and every value): a new field is new state -/
+def expectedStructFields : List (String × List String) := [
+  ("ast.ArrayLiteral", ["Token token.Token", "Elements []Expression", "Pos token.Position"]),
+  ("ast.AssignStmt", ["Token token.Token", "Name *Identifier", "Value Expression", "Pos token.Position"]),
+  ("ast.BlockStmt", ["Token token.Token", "Statements []Statement", "Pos token.Position"]),
+  ("ast.BooleanLiteral", ["Token token.Token", "Value bool", "Pos token.Position"]),
+  ("ast.BreakIfStmt", ["Token token.Token", "Condition Expression", "Pos token.Position"]),
+  ("ast.BreakStmt", ["Token token.Token", "Pos token.Position"]),
+  ("ast.CallExp", ["Token token.Token", "Receiver Expression", "Function *Identifier", "Arguments []Expression", "Pos token.Position"]),
+  ("ast.ComponentStmt", ["Token token.Token", "Name *StringLiteral", "Argument *ObjectLiteral", "Block *Program", "Slots []*SlotStmt", "Pos token.Position"]),
+  ("ast.ContinueIfStmt", ["Token token.Token", "Condition Expression", "Pos token.Position"]),
+  ("ast.ContinueStmt", ["Token token.Token", "Pos token.Position"]),
+  ("ast.DotExp", ["Token token.Token", "Left Expression", "Key Expression", "Pos token.Position"]),
+  ("ast.DumpStmt", ["Token token.Token", "Arguments []Expression", "Pos token.Position"]),
+  ("ast.EachStmt", ["Token token.Token", "Var *Identifier", "Array Expression", "Alternative *BlockStmt", "Block *BlockStmt", "Pos token.Position"]),
+  ("ast.ElseIfStmt", ["Token token.Token", "Condition Expression", "Consequence *BlockStmt", "Pos token.Position"]),
+  ("ast.ExpressionStmt", ["Token token.Token", "Expression Expression", "Pos token.Position"]),
+  ("ast.FloatLiteral", ["Token token.Token", "Value float64", "Pos token.Position"]),
+  ("ast.ForStmt", ["Token token.Token", "Init Statement", "Condition Expression", "Post Statement", "Alternative *BlockStmt", "Block *BlockStmt", "Pos token.Position"]),
+  ("ast.HTMLStmt", ["Token token.Token", "Pos token.Position"]),
+  ("ast.Identifier", ["Token token.Token", "Value string", "Pos token.Position"]),
+  ("ast.IfStmt", ["Token token.Token", "Condition Expression", "Consequence *BlockStmt", "Alternative *BlockStmt", "Alternatives []*ElseIfStmt", "Pos token.Position"]),
+  ("ast.IndexExp", ["Token token.Token", "Left Expression", "Index Expression", "Pos token.Position"]),
+  ("ast.InfixExp", ["Token token.Token", "Operator string", "Left Expression", "Right Expression", "Pos token.Position"]),
+  ("ast.InsertStmt", ["Token token.Token", "Name *StringLiteral", "Argument Expression", "Block *BlockStmt", "FilePath string", "Pos token.Position"]),
+  ("ast.IntegerLiteral", ["Token token.Token", "Value int64", "Pos token.Position"]),
+  ("ast.NilLiteral", ["Token token.Token", "Pos token.Position"]),
+  ("ast.ObjectLiteral", ["Token token.Token", "Pairs map[string]Expression", "Pos token.Position"]),
+  ("ast.PostfixExp", ["Token token.Token", "Operator string", "Left Expression", "Pos token.Position"]),
+  ("ast.PrefixExp", ["Token token.Token", "Operator string", "Right Expression", "Pos token.Position"]),
+  ("ast.Program", ["Token token.Token", "IsLayout bool", "UseStmt *UseStmt", "Statements []Statement", "Components []*ComponentStmt", "Reserves map[string]*ReserveStmt", "Inserts map[string]*InsertStmt", "Pos token.Position"]),
+  ("ast.ReserveStmt", ["Token token.Token", "Insert *InsertStmt", "Name *StringLiteral", "Pos token.Position"]),
+  ("ast.SlotStmt", ["Token token.Token", "Name *StringLiteral", "Body *BlockStmt", "Pos token.Position"]),
+  ("ast.StringLiteral", ["Token token.Token", "Value string", "Pos token.Position"]),
+  ("ast.TernaryExp", ["Token token.Token", "Condition Expression", "Consequence Expression", "Alternative Expression", "Pos token.Position"]),
+  ("ast.UseStmt", ["Token token.Token", "Name *StringLiteral", "Program *Program", "Pos token.Position"]),
+  ("config.Config", ["TemplateDir string", "TemplateExt string", "ErrorPagePath string", "DebugMode bool"]),
+  ("config.Func", ["Str map[string]StrCustomFunc", "Arr map[string]ArrayCustomFunc", "Int map[string]IntCustomFunc", "Float map[string]FloatCustomFunc", "Bool map[string]BoolCustomFunc"]),
+  ("ctx.EvalCtx", ["AbsPath string", "CustomFunc *config.Func", "Config *config.Config"]),
+  ("evaluator.Evaluator", ["ctx *ctx.EvalCtx"]),
+  ("fail.Error", ["message string", "line uint", "filepath string", "origin string"]),
+  ("lexer.Lexer", ["input string", "pos int", "readPos int", "char byte", "col uint", "prevCol uint", "startCol uint", "shouldResetCol bool", "line uint", "prevLine uint", "startLine uint", "isHTML bool", "isDirective bool", "countDirectiveParentheses int", "countCurlyBraces int"]),
+  ("object.Array", ["Elements []Object"]),
+  ("object.Block", ["Elements []Object"]),
+  ("object.Bool", ["Value bool"]),
+  ("object.Break", []),
+  ("object.Builtin", ["Fn BuiltinFunction"]),
+  ("object.Component", ["Name string", "Content Object"]),
+  ("object.Continue", []),
+  ("object.Dump", ["Values []string"]),
+  ("object.Env", ["store map[string]Object", "outer *Env"]),
+  ("object.Error", ["Err *fail.Error"]),
+  ("object.Float", ["Value float64"]),
+  ("object.HTML", ["Value string"]),
+  ("object.Int", ["Value int64"]),
+  ("object.Nil", []),
+  ("object.Obj", ["Pairs map[string]Object"]),
+  ("object.Reserve", ["Name string", "Content Object", "Argument Object"]),
+  ("object.Slot", ["Name string", "Content Object"]),
+  ("object.Str", ["Value string"]),
+  ("object.Use", ["Path string", "Content Object"]),
+  ("parser.Parser", ["l *lexer.Lexer", "errors []*fail.Error", "filepath string", "curToken token.Token", "peekToken token.Token", "unreadToken *token.Token", "prefixParseFns map[token.TokenType]prefixParseFn", "infixParseFns map[token.TokenType]infixParseFn", "useStmt *ast.UseStmt", "components []*ast.ComponentStmt", "inserts map[string]*ast.InsertStmt", "reserves map[string]*ast.ReserveStmt"]),
+  ("textwire.Template", ["programs map[string]*ast.Program"]),
+  ("token.Position", ["StartLine uint", "StartCol uint", "EndLine uint", "EndCol uint"]),
+  ("token.Token", ["Type TokenType", "Literal string", "Pos Position"])]
+
+theorem structFields_ok : Gen.structFields = expectedStructFields := by decide
+
 end Tw.FactsOk
